@@ -352,7 +352,11 @@ def restore_globals() -> None:
                 cur = d.get(k)
                 if isinstance(v, np.ndarray) and isinstance(cur, np.ndarray) and cur.shape == v.shape \
                         and cur.dtype == v.dtype:
+                    if cur.flags.writeable != v.flags.writeable:
+                        cur.flags.writeable = True
                     cur[...] = v
+                    if not v.flags.writeable:
+                        cur.flags.writeable = False
                 elif isinstance(v, np.ndarray):
                     d[k] = v.copy()
                 else:
